@@ -61,7 +61,28 @@ func (s *Sim) tagOf(name string) *TagCfg {
 			continue
 		}
 		if ok, _ := regexp.MatchString(tags[i].Pattern, name); ok {
-			return &tags[i]
+			// options omitted for a tag take the value of the default (first) tag
+			t := tags[i]
+			d := tags[0]
+			if t.Order == "" {
+				t.Order = d.Order
+			}
+			if t.ChunkSize == 0 {
+				t.ChunkSize = d.ChunkSize
+			}
+			if t.Priority == 0 {
+				t.Priority = d.Priority
+			}
+			if !t.DeleteSet {
+				t.Delete = d.Delete
+			}
+			if t.DeleteDelay == 0 {
+				t.DeleteDelay = d.DeleteDelay
+			}
+			if t.LastDelay == 0 {
+				t.LastDelay = d.LastDelay
+			}
+			return &t
 		}
 	}
 	for i := range tags {
@@ -335,7 +356,7 @@ func (m *w1mon) onPop(n *SendNode, p *popObs) {
 					precededBy = true
 				}
 			}
-			if (len(cg) > 0 || len(m.placeInGroup[e.group]) > 0) && !selfLast && precededBy {
+			if (len(cg) > 0 || len(m.placeInGroup[e.group]) > 0) && !selfLast && precededBy && !m.resendWhole[e.Name] {
 				if s.on("C10") {
 					s.violate(prop, "missing-prev", "%s of group %q announces no predecessor although %v were emitted/placed before it", p.Name, e.group, append(m.completedInGroup[e.group], m.placeInGroup[e.group]...))
 				}
